@@ -1,11 +1,22 @@
-//! mon_ops — monitors; dispatches on --prop.
+//! mon_ops — operator monitors (C17 comptime ops, C36 boundary encodings,
+//! C18 run-time ops); dispatches on --prop.
 
 use vcommon::Args;
+
+mod c17;
+mod c18;
+mod c36;
+mod common;
+mod vexpr;
 
 fn main() {
     vcommon::pool::install_panic_hook();
     let args = Args::parse();
     match args.prop.as_str() {
+        "C17" => c17::main(args),
+        "C36" => c36::main(args),
+        "C18" => c18::main(args),
+        "probe" => common::probe(args),
         p => {
             eprintln!("mon_ops: unknown property {p}");
             std::process::exit(2);
